@@ -165,7 +165,14 @@ where
     #[cfg(feature = "std")]
     fn chunks_vectored<'a>(&'a self, dst: &mut [IoSlice<'a>]) -> usize {
         let mut n = self.a.chunks_vectored(dst);
-        n += self.b.chunks_vectored(&mut dst[n..]);
+        // `a` may report only part of itself (the default implementation
+        // reports just its first chunk). Slices of `b` may only follow once
+        // all of `a` is covered, otherwise the result is not a prefix of the
+        // chain.
+        let a_reported: usize = dst[..n].iter().map(|s| s.len()).sum();
+        if a_reported == self.a.remaining() {
+            n += self.b.chunks_vectored(&mut dst[n..]);
+        }
         n
     }
 
